@@ -1,7 +1,6 @@
 package main
 
 import (
-	"regexp"
 	"bufio"
 	"bytes"
 	"crypto/ed25519"
@@ -14,6 +13,7 @@ import (
 	"math/big"
 	"net"
 	"os"
+	"regexp"
 	"sort"
 	"strconv"
 	"strings"
@@ -487,6 +487,8 @@ func runStack(id string, toks []string) (res string) {
 			} else {
 				emit(fmt.Sprintf("PSPLIT=%d/%s", r.status, other))
 			}
+		case "HSPLIT":
+			emit(w.headerSplit(p[1], p[2]))
 		case "CHURN":
 			emit(w.connectionChurn(p[1]))
 		case "DUPW":
@@ -1440,7 +1442,6 @@ func (w *world) srpMany(ns string) string {
 	return "SRPMANY=ok"
 }
 
-
 // injectBehindFinish: INJ:<ctrl>:<aid.iid>:<attempts>
 // Somebody on the path between a paired controller and the accessory appends PLAINTEXT requests (fillers that are refused and
 // writes of `true` to the boolean characteristic) to the segment that carries the controller's genuine pair-verify finish, and
@@ -1470,13 +1471,22 @@ func (w *world) injectBehindFinish(ctrl, cid, attempts string) string {
 			cc.c.Close()
 			continue
 		}
+		// one attempt in three: the header lines of the finish and of what is put behind it end with a bare "\n"
+		nl := "\r\n"
+		if i%3 == 1 {
+			nl = "\n"
+			cc.bareLF = true
+		}
+		// every third attempt: the finish is re-framed with chunked transfer encoding plus a Content-Length that covers what
+		// is put behind it (net/http goes by the former)
+		cc.teBoth = i%3 == 2
 		var tail bytes.Buffer
 		for k := 0; k < 110; k++ {
-			tail.WriteString("GET /x HTTP/1.1\r\nHost: x\r\n\r\n")
+			tail.WriteString("GET /x HTTP/1.1" + nl + "Host: x" + nl + nl)
 		}
 		body := fmt.Sprintf(`{"characteristics":[{"aid":%d,"iid":%d,"value":true}]}`, aid, iid)
 		for k := 0; k < 3; k++ {
-			fmt.Fprintf(&tail, "PUT /characteristics HTTP/1.1\r\nHost: x\r\nContent-Length: %d\r\n\r\n%s", len(body), body)
+			fmt.Fprintf(&tail, "PUT /characteristics HTTP/1.1%sHost: x%sContent-Length: %d%s%s%s", nl, nl, len(body), nl, nl, body)
 		}
 		cc.tail = tail.Bytes()
 		ran++
@@ -1506,7 +1516,6 @@ func (w *world) injectBehindFinish(ctrl, cid, attempts string) string {
 	}
 	return fmt.Sprintf("INJ=hit%d/%d", hits, ran)
 }
-
 
 // sharedSourceBehindIdentify: NSI:<ctrl>:<aid.iid>:<n>
 // Two connections that the accessory sees under the SAME remote ip:port (one local ip:port, destinations 127.0.0.1 and
@@ -1560,7 +1569,6 @@ func (w *world) sharedSourceBehindIdentify(ctrl, cid, ns string) string {
 	return fmt.Sprintf("NSI=served%d/%d", served, ran)
 }
 
-
 // resetAndReconnectSamePort: RSC:<n>
 // A peer sends a pair-setup start request and resets its connection at once (while the handler computes); it connects again
 // from the SAME local port and, after the handler of the first connection has returned, sends a correct start request on
@@ -1613,7 +1621,6 @@ func (w *world) resetAndReconnectSamePort(ns string) string {
 	}
 	return fmt.Sprintf("RSC=unanswered%d/%d", bad, done)
 }
-
 
 // sameWriteFromTwo: DUPW:<ca>:<cb>:<sub>:<rounds>
 // Two verified controllers write the SAME new value to the On characteristic of every extra accessory (nacc=) at the same time,
@@ -1681,7 +1688,6 @@ func (w *world) sameWriteFromTwo(can, cbn, subn, rs string) string {
 	return fmt.Sprintf("DUPW=ok/%d", rounds)
 }
 
-
 // connectionChurn: CHURN:<milliseconds>
 // Peers that never pair keep four connections busy (POST /identify, truncated pair-verify messages) while four others connect
 // and disconnect in a loop.  The accessory's bookkeeping of connections is used from all of these goroutines at once.
@@ -1719,4 +1725,41 @@ func (w *world) connectionChurn(ms string) string {
 	}
 	wg.Wait()
 	return "CHURN=ok"
+}
+
+// headerSplit: HSPLIT:<c>:<k>
+// On the plaintext connection c a pair-setup request (a step nobody has a name for: answered with an error) is sent in two TCP
+// segments, cut k bytes before the end of its header; then a second one with a longer body in one piece.  Both must be
+// answered.  Emits HSPLIT=answered, HSPLIT=unanswered1 or HSPLIT=unanswered2.
+func (w *world) headerSplit(cn, ks string) string {
+	cc := w.conns[cn]
+	if cc == nil || cc.dead || cc.secured {
+		return "HSPLIT=noconn"
+	}
+	k, _ := strconv.Atoi(ks)
+	mk := func(body []byte) (head, rest []byte) {
+		h := fmt.Sprintf("POST /pair-setup HTTP/1.1\r\nHost: hc.local\r\nContent-Type: %s\r\nContent-Length: %d\r\n\r\n", tlvCT, len(body))
+		return []byte(h), body
+	}
+	answer := func() bool {
+		cc.c.SetReadDeadline(time.Now().Add(2 * time.Second))
+		_, _, err := cc.readMessage("POST")
+		return err == nil
+	}
+	h1, b1 := mk(tlvEncode([]tlvItem{{tState, []byte{9}}}))
+	cut := len(h1) - k
+	cc.c.Write(h1[:cut])
+	time.Sleep(30 * time.Millisecond)
+	cc.c.Write(append(append([]byte{}, h1[cut:]...), b1...))
+	if !answer() {
+		cc.dead = true
+		return "HSPLIT=unanswered1"
+	}
+	h2, b2 := mk(tlvEncode([]tlvItem{{tState, []byte{9}}, {tPub, make([]byte, 200)}}))
+	cc.c.Write(append(h2, b2...))
+	if !answer() {
+		cc.dead = true
+		return "HSPLIT=unanswered2"
+	}
+	return "HSPLIT=answered"
 }
